@@ -52,6 +52,7 @@ TABLE = [
     ("writes the normalised weight back to abstract layers", "C19", "a nested abstract class that is not listed among the considered subtypes never got its normalised weight written back: its rule did not sum to one and the weights of its siblings drifted at every re-extraction (0.5, 0.33, ...)"),
     ("restarts its expanding phase for every tree", "C07", "with a concrete start symbol the PI-grow decider never re-entered its expanding phase after its first tree (its reset only fired for a decision taken at the root): the state left on a decider object shared with a GE / SGE representation changed what the next mapping of the same genotype returned"),
     ("never picks an alternative that derives nothing", "C01", "ProgressivelyTerminalDecider picked an abstract class without productions when it was listed first among the alternatives (negative heuristic weights made choice_weighted fall through to the first option) and creation returned an instance of the abstract class itself"),
+    ("Grammar.collect_types visits every type once", "C01", "a concrete class that reaches itself through a Union (Cons(head, tail: Union[Cons, Nil])) made Grammar.collect_types / get_all_mentioned_symbols recurse forever: every stack-based mapping over such a grammar died with RecursionError (a foreign exception)"),
 ]
 
 log = subprocess.check_output(["git", "-C", "/repo", "log", "--format=%h %s"]).decode().splitlines()
